@@ -961,7 +961,7 @@ def _elif_to_else_if(
     if block_indent is None:
         block_indent = indent + self.root.indent
 
-    self._indent_lns(block_indent[len(indent):], skip=0, docstr=docstr)
+    self._indent_lns(block_indent[len(indent):], skip=0, docstr=docstr, after=indent)  # after=indent so that mixed tabs and spaces stay in the same order as in block_indent
 
     if not self.next():  # last child?
         self.parent._set_end_pos((a := self.a).end_lineno, a.end_col_offset)  # we're an elif, there is definitely a parent
